@@ -92,6 +92,19 @@ pub fn run(ctx: &Ctx) -> i32 {
     let (c, quick, thorough, rule) = campaign(&ctx.property).expect("tower campaign");
     if let Some(p) = &ctx.replay {
         crate::panics::VERBOSE.store(true, std::sync::atomic::Ordering::SeqCst);
+        // (C08's add-on family has its own small case format)
+        if let Some(rep) = std::fs::read_to_string(p).ok().and_then(|t| serde_json::from_str::<serde_json::Value>(&t).ok()).and_then(|b| crate::props::inreorg::replay(&b["case"])) {
+            return match rep.violations.first() {
+                None => {
+                    println!("replay: no violation");
+                    0
+                }
+                Some(v) => {
+                    println!("VIOLATION property={} replay={p}\n  signature: {}\n  {}", v.property, v.signature, v.message);
+                    1
+                }
+            };
+        }
         return runner::replay(&c, p);
     }
     // (C11 comes here after its scheduler part, which had its own observer installed)
@@ -131,7 +144,11 @@ pub fn run(ctx: &Ctx) -> i32 {
             }
         }
     }
-    let replayed = regress.evaluations;
+    let mut inside_reorg = 0;
+    if c.id == "C08" && regress.failures.is_empty() {
+        inside_reorg = crate::props::inreorg::run_all(&mut regress);
+    }
+    let replayed = regress.evaluations - inside_reorg;
     let mut stats = if regress.failures.is_empty() { runner::run_campaign(&c, ctx, n) } else { runner::Stats::default() };
     stats.merge(regress);
     let mut ev = Evidence::default();
@@ -145,5 +162,9 @@ pub fn run(ctx: &Ctx) -> i32 {
     ];
     ev.extra.insert("cases_per_worker".into(), json!(n));
     ev.extra.insert("regression_histories_replayed".into(), json!(replayed));
+    if c.id == "C08" {
+        ev.extra.insert("requests_inside_a_reorg".into(), json!(inside_reorg));
+        ev.rule = format!("{} Add-on, exhaustive small family ({inside_reorg} cases): for every reorg depth 1-3, 1-2 extra blocks, every replacement block k and a user registered below / on top of the reorged blocks, an add_appointment is made from inside the poll right before block k is fetched (the tower stands at fork height + k - 1, lower than before the poll for small k): receipt start_block == that height, stored row == receipt, reads back.", ev.rule);
+    }
     runner::conclude(ctx, c.id, stats, ev, started)
 }
